@@ -25,6 +25,15 @@ def _attr_assigns(fn):
     return out
 
 
+def _mag_attr():
+    """The attribute of ProductKernel that holds the magnetic slice, by role: the one assigned slice(first_mag, last_mag)."""
+    init = pf.lib("product").func("ProductKernel.__init__")
+    c = [k for k, v in _attr_assigns(init).items() if k.startswith("self.") and pf.canon(pf.unparse(v[0].value)) == pf.canon("slice(first_mag, last_mag)")]
+    if len(c) != 1:
+        raise AnalysisError("ProductKernel.__init__: magnetic slice attribute not found (%s)" % c)
+    return c[0]
+
+
 def rule_layout(r):
     mod = pf.lib("product")
     init = mod.func("ProductKernel.__init__")
@@ -83,7 +92,7 @@ def rule_layout(r):
         r.check(same(em, (two + p + s - v + hb) if he else 0), F, "ProductKernel.__init__", "_er_mode_index (%s)" % case,
                 A["self._er_mode_index"][0].lineno, "evaluates to %s" % em)
         for nm_, w in (("self._p_value_slice", (two, two + p)), ("self._s_value_slice", (two + p + 2 - v, two + p + s - v)),
-                       ("self._magentic_slice", (want["first_mag"], want["last_mag"])),
+                       (_mag_attr(), (want["first_mag"], want["last_mag"])),
                        ("self._p_detail_slice", (0, p)), ("self._s_detail_slice", (p, p + s - v))):
             lo, hi = slice_bounds(A[nm_][0].value, dict(env, **local), facts)
             r.check(same(lo, w[0]) and same(hi, w[1]), F, "ProductKernel.__init__", "%s = %s (%s)" % (nm_, pf.unparse(A[nm_][0].value), case),
@@ -169,7 +178,7 @@ def rule_inject(r):
     r.check(a == ["p_details", "p_values", "cutoff", "magnetic", "er_mode"], F, "ProductKernel.Iq", "p_kernel.Fq(%s)" % ", ".join(a), pc[0].lineno,
             "P is averaged with the selected effective-radius mode")
     pv = [s for s in cfg.stmts() if isinstance(s, ast.Assign) and pf.unparse(s.targets[0]) == "p_values" and isinstance(s.value, ast.List)]
-    r.check(bool(pv) and [pf.unparse(e) for e in pv[0].value.elts] == ["[1.0, 0.0]", "values[self._p_value_slice]", "values[self._magentic_slice]", "weights"],
+    r.check(bool(pv) and [pf.unparse(e) for e in pv[0].value.elts] == ["[1.0, 0.0]", "values[self._p_value_slice]", "values[%s]" % _mag_attr(), "weights"],
             F, "ProductKernel.Iq", "p_values = [[1, 0], P block, magnetic block, weights]", pv[0].lineno if pv else 0,
             "P evaluated with scale 1, background 0")
     sv = [s for s in cfg.stmts() if isinstance(s, ast.Assign) and pf.unparse(s.targets[0]) == "s_values" and isinstance(s.value, ast.List)]
@@ -290,7 +299,7 @@ RULES = [
 
 
 from . import shared
-RULES = RULES + shared.bundle('C07', ['gpu', 'gate', 'restart', 'driver', 'values', 'stride', 'maxpd', 'norm', 'loops', 'eqvol', 'modes'], ['product', 'details', 'kernel'])
+RULES = RULES + shared.bundle('C07', ['gpu', 'gate', 'restart', 'driver', 'values', 'stride', 'maxpd', 'norm', 'loops', 'eqvol', 'modes', 'minmax'], ['product', 'details', 'kernel'])
 from .. import refs as _refs
 RULES = RULES + [_refs.ref_rule('C07')]
 
